@@ -100,6 +100,27 @@ Section WithOracle.
   Definition P (types : list evtype) (filter : bool) (h : list step) (obs_l : list obs) : bool :=
     P_from types filter [] h obs_l.
 
+  (* ---- objects that exist when the binding is enabled ----
+     "Known" begins with the binding's first view of the cluster: the objects that exist when
+     the monitor is created are listed once (they are what the Synchronization snapshot
+     shows) and are known from then on - this listing is not a change and triggers nothing.
+     What the informer delivers afterwards, beginning with the re-delivery of these very
+     objects at informer start ("Re-delivery of an unchanged object (informer start, ...)
+     triggers nothing"), is judged against that knowledge exactly as any other delivery:
+     an Added for a listed object whose projection is the listed one triggers nothing, one
+     whose projection differs is a change.  [listed] = (resource id, object) as they are in
+     the cluster at that moment. *)
+  Definition known_of_list (filter : bool) (listed : list (N * json)) : known :=
+    fold_left (fun k io => k_set (fst io) (snd io, projection filter (snd io)) k) listed [].
+
+  Definition P_start (types : list evtype) (filter : bool) (listed : list (N * json))
+                     (h : list step) (obs_l : list obs) : bool :=
+    P_from types filter (known_of_list filter listed) h obs_l.
+
+  (* the listed objects as steps (for the trigger predicates, which look at objects only) *)
+  Definition listed_steps (listed : list (N * json)) : list step :=
+    map (fun io => (Added, fst io, snd io)) listed.
+
   (* trigger of the known finding F8: the filter's result on some object of the history
      (on which it does not fail) is not a single JSON object *)
   Definition single_object (outs : list json) : bool :=
